@@ -77,6 +77,8 @@ func (h *harness) mkTx(spec string, idx int) *models.TransactionResponse {
 		switch {
 		case p[2] != "1":
 			tx.Payload = strfmt.Base64("{not json")
+		case p[3] == "1" && idx%3 == 0:
+			tx.Payload = strfmt.Base64(`{"type":"send_to_hub","recipient":"` + sdk.AccAddress(make([]byte, 20)).String() + `","fee":"0"}`)
 		case p[3] == "1":
 			tx.Payload = strfmt.Base64(`{"type":"send_to_ethereum","recipient":"0x3333333333333333333333333333333333333333","fee":"1000"}`)
 		default:
@@ -86,6 +88,10 @@ func (h *harness) mkTx(spec string, idx int) *models.TransactionResponse {
 				`{"type":"send_to_bsc","recipient":"0x3333333333333333333333333333333333333333","fee":"abc"}`,
 				`{"type":"send_to_bsc","recipient":"0x3333333333333333333333333333333333333333","fee":"990000"}`,
 				`{"type":"send_to_hub","recipient":"nothub1xyz","fee":"1"}`,
+				// a well-formed hub recipient, but no integer fee: key absent, empty, null
+				`{"type":"send_to_hub","recipient":"` + sdk.AccAddress(make([]byte, 20)).String() + `"}`,
+				`{"type":"send_to_hub","recipient":"` + sdk.AccAddress(make([]byte, 20)).String() + `","fee":""}`,
+				`{"type":"send_to_ethereum","recipient":"0x3333333333333333333333333333333333333333"}`,
 			}
 			tx.Payload = strfmt.Base64(bad[idx%len(bad)])
 		}
